@@ -363,47 +363,58 @@ def section_origin(f, call):
 # ---- R7.4 -----------------------------------------------------------------------------------
 
 def aggregate_copy_rule(c, chk, ex):
+    """a local option record filled from another option (struct assignment or member by member) and then handed to a
+    content releaser: every owner member released through the local must no longer be held by the original"""
     n = 0
     for f in c.confuse.funcs.values():
-        copies = [x for x in f.calls() if (x.callee_name() or '').startswith('llvm.memcpy') and x.args[2].kind == 'int']
-        if not copies:
+        if f.name in c.unknown_funcs or not f.order:
             continue
-        paths = [p for p in ex.explore(f) if p.end == 'ret']
-        for cp in copies:
-            # struct copy into / out of a local cfg_opt_t
-            size = cp.args[2].ival
-            for p in paths:
-                evs = p.events
-                ci = next((i for i, e in enumerate(evs) if e.kind == 'call' and e.ins is cp), None)
-                if ci is None:
+        locals_ = set()
+        for g in c.deep_funcs(f):
+            for ins in g.blocks[g.order[0]].instrs:
+                if ins.op == 'alloca' and (ins.srcty or '').strip() == '%struct.cfg_opt_t':
+                    locals_.add(ins.res if g is f else '%s@%s' % (ins.res, g.name))
+        if not locals_:
+            continue
+        nf = 0
+        for p in ex.explore(f):
+            if p.end != 'ret':
+                continue
+            evs = p.events
+            for j, e in enumerate(evs):
+                if not (e.kind == 'call' and e.name in ow.CONTENT_RELEASERS):
                     continue
-                dst, src = evs[ci].args[0], evs[ci].args[1]
-                if dst[0] != 'alloca' or sym.root_of(src)[0] != 'p':
+                k, flds = ow.CONTENT_RELEASERS[e.name]
+                dst = e.args[k]
+                if dst[0] != 'alloca' or dst[1] not in locals_:
                     continue
                 n += 1
-                # content releasers applied to the copy
-                for j in range(ci + 1, len(evs)):
-                    e = evs[j]
-                    if e.kind == 'call' and e.name in ow.CONTENT_RELEASERS:
-                        k, flds = ow.CONTENT_RELEASERS[e.name]
-                        if e.args[k] != dst:
-                            continue
-                        for fld in flds:
-                            # the same field of the original must have been re-assigned since the copy,
-                            # or the copy's field cleared before the release
-                            re_src = any(x.kind == 'store' and x.addr[0] == 'fld' and x.addr[3] == fld and sym.norm(x.addr[1]) == sym.norm(src)
-                                         for x in evs[ci + 1:j])
-                            # the copy's member was cleared or given another value since the copy was taken
-                            clr_dst = any(x.kind == 'store' and x.addr[0] == 'fld' and x.addr[3] == fld and x.addr[1] == dst
-                                          for x in evs[ci + 1:j])
-                            if not (re_src or clr_dst):
-                                chk.fail('R7.4', 'shared-owner:%s:%s' % (f.name, fld), c.where(e.ins),
-                                         '%s(): after the by-value copy of *%s, %s() releases the copy\'s "%s" while the original still points to it (dangling pointer)'
-                                         % (f.name, sym.render(src), e.name, fld), witness=[repr(x) for x in evs[ci:j + 1]][:10])
-                                return
-        if n:
-            chk.ok('R7.4', '%s: by-value option copy' % f.name, 'every owner field released under the copy was re-assigned in the original first (%d paths)' % n, sample=True)
-    chk.floor('R7.4 aggregate copy paths', n, 1)
+                nf += 1
+                for fld in flds:
+                    # where does the local's member come from?  the latest writer before the release
+                    ci, src = None, None
+                    for i in range(j - 1, -1, -1):
+                        x = evs[i]
+                        if x.kind == 'call' and (x.name or '').startswith('llvm.memcpy') and x.args[0] == dst and sym.root_of(x.args[1])[0] == 'p':
+                            ci, src = i, x.args[1]
+                            break
+                        if x.kind == 'store' and x.addr[0] == 'fld' and x.addr[3] == fld and x.addr[1] == dst:
+                            v = x.val
+                            if v[0] == 'ld' and v[1][0] == 'fld' and v[1][3] == fld and sym.root_of(v[1])[0] == 'p':
+                                ci, src = i, v[1][1]
+                            break
+                    if ci is None:
+                        continue        # cleared, or given a value of its own
+                    re_src = any(x.kind == 'store' and x.addr[0] == 'fld' and x.addr[3] == fld and sym.norm(x.addr[1]) == sym.norm(src)
+                                 for x in evs[ci + 1:j])
+                    if not re_src:
+                        chk.fail('R7.4', 'shared-owner:%s:%s' % (f.name, fld), c.where(e.ins),
+                                 '%s(): after the by-value copy of *%s, %s() releases the copy\'s "%s" while the original still points to it (dangling pointer)'
+                                 % (f.name, sym.render(src), e.name, fld), witness=[repr(x) for x in evs[ci:j + 1]][:10])
+                        return
+        if nf:
+            chk.ok('R7.4', '%s: local option record' % f.name, 'every owner member released through the local copy was re-assigned in the original first (%d releases on the explored paths)' % nf, sample=True)
+    chk.floor('R7.4 releases through a local option record', n, 1)
 
 
 # ---- R7.5 -----------------------------------------------------------------------------------
